@@ -318,6 +318,9 @@ def _string_fragments_is_constant(fragments: list) -> bool:
 
 
 def _first_fragment_is_symbol_that_can_act_as_path(fragments: list) -> bool:
+    if not fragments:
+        # The empty string, given as a soft quoted string
+        return False
     if fragments[0].is_constant:
         return False
     if len(fragments) == 1:
